@@ -264,6 +264,10 @@ func (pm *ProtocolManager) rcvBlockLoop() {
 				if pm.chain.HasBlock(b.ParentHash()) {
 					log.Infof("Got a block %s from peer: %#x", b.ShortString(), rcvMsg.p.NodeID()[:4])
 					if err := pm.insertBlock(b); err != nil {
+						if pm.chain.HasBlock(b.Hash()) {
+							// the same block was inserted meanwhile (by the cache drain); the rest of the message is still wanted
+							continue
+						}
 						log.Warnf("block verify failed. ignore the rest %d blocks", len(rcvMsg.blocks)-1-i)
 						break
 					}
